@@ -47,13 +47,13 @@ impl Property for C01 {
     }
     fn params(&self, tier: Tier) -> Params {
         Params {
-            // The generated tier is exploratory (VP_C01_GEN=<cases>): the comparison is greedy and
+            // The general G-PROG tier is exploratory (VP_C01_GEN=<cases>): the comparison is greedy and
             // still raises a false alarm on ~1 in 10^4 generated programs (parentheses that
             // rustfmt adds around closures and casts), see DESIGN §5 C01. The registered tiers
-            // use the corpus grid, which was swept completely.
-            cases: std::env::var("VP_C01_GEN").ok().and_then(|v| v.parse().ok()).unwrap_or({
-                let _ = tier;
-                0
+            // use the corpus grid, which was swept completely, plus generated macro programs.
+            cases: std::env::var("VP_C01_GEN").ok().and_then(|v| v.parse().ok()).unwrap_or(match tier {
+                Tier::Quick => 6_000,
+                Tier::Thorough => 120_000,
             }),
             max_bytes: 1024,
             timeout: Duration::from_secs(20),
@@ -81,20 +81,25 @@ impl Property for C01 {
         Some(cell_case(&cell))
     }
     fn generate(&self, c: &mut Choices<'_>, _g: &GenCtx) -> Value {
+        if std::env::var("VP_C01_GEN").is_err() {
+            // registered tiers: programs made of macro definitions and invocations, re-laid out
+            let text = crate::gen::macros::gen_macro_program(c);
+            let intensity = c.weighted(&[2, 3, 3, 2]);
+            let text = crate::gen::layout::relayout(&text, c, intensity, crate::gen::layout::Newlines::Lf);
+            let space = ConfSpace { max_extra: 2, ..SPACE };
+            let opts = gen_conf(c, &space);
+            return json!({"src": text, "opts": opts_to(&opts), "origin": "prog", "layout": intensity, "tags": ["macro-program"]});
+        }
         let p = gen_prog(c, &ProgSpace::default());
         let wild = c.weighted(&[3, 3, 2, 2]);
         // comments are C03's subject (and several known comment-placement defects make the
         // output unparsable): generated programs of C01 carry none; the corpus cells do
-        let mut comment_p = 0;
+        let comment_p = 0;
         let space = ConfSpace {
             min_edition: p.min_edition,
             ..SPACE
         };
         let mut opts = gen_conf(c, &space);
-        if opt_bool(&opts, "wrap_comments", false) || opt_bool(&opts, "normalize_comments", false) {
-            // comment rewriting mangles multi-line block comments after items (known finding)
-            comment_p = 0;
-        }
         let r = render(
             &p,
             c,
